@@ -40,7 +40,7 @@ def voltage_from_field(
     return V_out
 
 
-def noise_voltage(freqs: np.ndarray, h_obs: float) -> np.ndarray:
+def noise_voltage(freqs: np.ndarray, h_obs: float, df: float = None) -> np.ndarray:
     """
     returns noise voltage in V
 
@@ -49,6 +49,9 @@ def noise_voltage(freqs: np.ndarray, h_obs: float) -> np.ndarray:
         frequency band in MHz
     h_obs: float
         height in km above the earth surface of your observer
+    df: float, optional
+        bin width in MHz; taken from the spacing of freqs when not given (which needs
+        at least two bins)
 
     Returns:
         noise voltage seen by the antenna at each freq
@@ -63,7 +66,7 @@ def noise_voltage(freqs: np.ndarray, h_obs: float) -> np.ndarray:
     T_sky = sky_noise(freqs)
     T_comb = T_sys + (T_earth * (1.0 - skyFrac) + T_sky * skyFrac)
 
-    bw = 1e6 * (freqs[1] - freqs[0])  # bandwidth in Hz
+    bw = 1e6 * (freqs[1] - freqs[0] if df is None else df)  # bandwidth in Hz
     Z_load = 50  # 50 ohm load
     k_b = 1.38064852e-23  # boltzmann's constant Watts / Hz / K
 
@@ -169,7 +172,7 @@ def calculate_snr(
     freqs = np.arange(freqRange[0], freqRange[1], df) + df / 2.0
 
     V_sig = Nants * voltage_from_field(Efield, freqs, gain)
-    V_noise = np.sqrt(Nants * np.sum(noise_voltage(freqs, h_obs) ** 2.0))
+    V_noise = np.sqrt(Nants * np.sum(noise_voltage(freqs, h_obs, df) ** 2.0))
     V_sigsum = np.sum(V_sig, axis=1)
     # print(V_sigsum.mean())
     # print(V_noise)
